@@ -13,7 +13,7 @@ and application messages of every member are decrypted by every other member."""
 import json
 
 from .common import *
-from .histlib import HistGen, run_scripts, block_join_history, double_update_history
+from .histlib import HistGen, run_scripts, block_join_history, double_update_history, shrink_regrow_history
 
 FIELDS = ("ctx", "tree_bytes", "auth", "exp", "cth", "tree_hash", "ext")
 
@@ -337,6 +337,14 @@ def main(run, args):
         g.round_explicit(rng.choice(g.in_group), n_adds=0, remove_names=[], new_id=True)
         marks.append((len(g.ops) - 1, g.epoch))
         items.append((g.script(), {"marks": marks, "kinds": {"rotate_and_add": 1}, "talk": [], "final_members": list(g.in_group), "suite": suite, "providers": provs}))
+    # the right half of the tree is emptied by one commit (truncation across a power of two), then the group
+    # grows back: members that lived through the shrink, members added on the small tree and the joiners of
+    # the regrowth must all agree (tree hash in the context, parent hashes, Welcome)
+    for i in range(6 if quick else 36):
+        suite = [1, 2, 3][i % 3]
+        provs = [["openssl"], ["rustcrypto"], ["awslc"], ["openssl", "awslc", "rustcrypto"]][i % 4]
+        g, marks = shrink_regrow_history(rng, i, f"c01-shrink-{i}", quick, suite=suite, providers=provs)
+        items.append((g.script(), {"marks": marks, "kinds": {"shrink_regrow": 1}, "talk": [], "final_members": list(g.in_group), "suite": suite, "providers": provs}))
     recs = run_scripts([x[0] for x in items], timeout=3000)
     failing, stats = judge(items, recs)
     run.obligation("all members agree after every commit of every history; epoch +1; all-to-all decryption", not failing and stats["member_comparisons"] > 0)
